@@ -204,6 +204,7 @@ type c06Artefact struct {
 	Kind  string `json:"kind"`
 	Alg   string `json:"alg"`
 	Codec string `json:"codec"`
+	Large bool   `json:"large,omitempty"` // the token carries one string value of 5120 bytes
 }
 
 var c06SpecOpts = map[string]map[string]string{
@@ -212,13 +213,25 @@ var c06SpecOpts = map[string]map[string]string{
 }
 
 func c06Bytes(a c06Artefact) []byte {
-	id := "c06/" + a.Kind + "/" + a.Alg + "/" + a.Codec
+	id := "c06/" + a.Kind + "/" + a.Alg + "/" + a.Codec + fmt.Sprint(a.Large)
 	headerMu.Lock()
 	defer headerMu.Unlock()
 	if b, ok := baseCache[id]; ok {
 		return b
 	}
-	tok, key, err := BuildToken(TokSpec{Kind: a.Kind, Alg: a.Alg, Opts: c06SpecOpts[a.Kind]})
+	opts := c06SpecOpts[a.Kind]
+	if a.Large {
+		opts = map[string]string{}
+		for k, v := range c06SpecOpts[a.Kind] {
+			opts[k] = v
+		}
+		if a.Kind == "inv" {
+			opts["args"] = "k=str-5k"
+		} else {
+			opts["meta"] = "k=str-5k"
+		}
+	}
+	tok, key, err := BuildToken(TokSpec{Kind: a.Kind, Alg: a.Alg, Opts: opts})
 	if err != nil {
 		panic(err)
 	}
@@ -318,15 +331,20 @@ func c06ByteSub() *engine.Sub {
 		for _, alg := range algs {
 			for _, kind := range []string{"dlg", "inv"} {
 				for _, codec := range []string{"cbor", "json"} {
-					r = append(r, c06Artefact{kind, alg, codec})
+					r = append(r, c06Artefact{kind, alg, codec, false})
 				}
 			}
+		}
+		// tokens with one value of 5120 bytes (every byte of a long value is signed): bit flips only
+		r = append(r, c06Artefact{"inv", "ed25519", "cbor", true}, c06Artefact{"dlg", "ed25519", "json", true})
+		if tier == "thorough" {
+			r = append(r, c06Artefact{"dlg", "ed25519", "cbor", true}, c06Artefact{"inv", "ed25519", "json", true})
 		}
 		return r
 	}
 	return &engine.Sub{
 		Name: "byte-level-corruption",
-		Rule: "for each sealed artefact ({delegation, invocation} x algorithm x {DAG-CBOR sealed bytes, DAG-JSON text}): the unmodified bytes, every single-bit flip, every single-byte deletion, every truncation length, and (Ed25519, secp256k1 and P-256 artefacts in thorough; the Ed25519 artefacts in quick) every byte substitution and every single-byte insertion at every offset, through every decoder (7 CBOR / 3 JSON entry points; for deletions and truncations (Ed25519 artefacts: also bit flips) of the sealed bytes also through container.FromCbor / FromCar, alone and next to a genuinely signed invocation of another party whose proof list names the CID of the modified bytes): error, or a token whose every field equals the original's and which passes an independent signature re-verification; non-trivial = mutations that some decoder accepts or that reach signature verification",
+		Rule: "for each sealed artefact ({delegation, invocation} x algorithm x {DAG-CBOR sealed bytes, DAG-JSON text}; plus Ed25519 tokens with one 5120-byte string value: bit flips only, in quick the lowest and highest bit of every byte of two of the four artefacts): the unmodified bytes, every single-bit flip, every single-byte deletion, every truncation length, and (Ed25519, secp256k1 and P-256 artefacts in thorough; the Ed25519 artefacts in quick) every byte substitution and every single-byte insertion at every offset, through every decoder (7 CBOR / 3 JSON entry points; for deletions and truncations (Ed25519 artefacts: also bit flips) of the sealed bytes also through container.FromCbor / FromCar, alone and next to a genuinely signed invocation of another party whose proof list names the CID of the modified bytes): error, or a token whose every field equals the original's and which passes an independent signature re-verification; non-trivial = mutations that some decoder accepts or that reach signature verification",
 		Bound: func(t string) string {
 			if t == "thorough" {
 				return "6 algorithms x 2 kinds x 2 codecs; bit flips, deletions, truncations at every offset for all; 255 substitutions and 256 insertions at every offset for Ed25519, secp256k1 and P-256"
@@ -347,12 +365,22 @@ func c06ByteSub() *engine.Sub {
 				if a.Alg == "ed25519" || (tier == "thorough" && (a.Alg == "secp256k1" || a.Alg == "p256")) {
 					ops = append(ops, "subst", "insert")
 				}
+				if a.Large {
+					ops = []string{"bitflip"}
+				}
 				for _, op := range ops {
 					n := len(b)
 					if op == "insert" {
 						n++
 					}
 					for off := 0; off < n; off++ {
+						if a.Large && tier != "thorough" {
+							// quick: the lowest and the highest bit of every byte
+							if !emit(&c06Case{Art: a, Op: op, Off: off, Val: 0, Orig: oh}) || !emit(&c06Case{Art: a, Op: op, Off: off, Val: 7, Orig: oh}) {
+								return
+							}
+							continue
+						}
 						if !emit(&c06Case{Art: a, Op: op, Off: off, Val: -1, Orig: oh}) {
 							return
 						}
@@ -447,7 +475,7 @@ func c06RewriteSub() *engine.Sub {
 							return
 						}
 					}
-					p := splitEnvelope(c06Bytes(c06Artefact{kind, alg, "cbor"}))
+					p := splitEnvelope(c06Bytes(c06Artefact{kind, alg, "cbor", false}))
 					for i := range p.Payload {
 						if !emit(&c06RewriteCase{Kind: kind, Alg: alg, Rw: "field-dropped-old-sig", N: i}) {
 							return
@@ -521,7 +549,7 @@ func c06RewriteSub() *engine.Sub {
 		NewCase: func() any { return &c06RewriteCase{} },
 		Run: func(ctx *engine.Ctx, c any) {
 			cs := c.(*c06RewriteCase)
-			art := c06Artefact{cs.Kind, cs.Alg, "cbor"}
+			art := c06Artefact{cs.Kind, cs.Alg, "cbor", false}
 			orig := c06Bytes(art)
 			key := fixtures.Get(cs.Alg, 0)
 			p := splitEnvelope(orig)
@@ -708,7 +736,7 @@ func c06RewriteSub() *engine.Sub {
 				if cs.Kind == "inv" {
 					otherKind = "dlg"
 				}
-				op := splitEnvelope(c06Bytes(c06Artefact{otherKind, cs.Alg, "cbor"}))
+				op := splitEnvelope(c06Bytes(c06Artefact{otherKind, cs.Alg, "cbor", false}))
 				mutated = assembleWithSig(op.Sig, sigPayloadNode(p.Header, p.Tag, payload(p.Payload)))
 			case "payload-under-other-tag-old-sig", "payload-under-other-tag-resigned":
 				tag := invTag
